@@ -216,6 +216,8 @@ func doAbuse() {
 		abuseCall("closed_scope_get", func() error { _, err := s.Get(tS0); return err })
 		abuseCall("closed_scope_getkeyed", func() error { _, err := s.GetKeyed(tS1, "k"); return err })
 		abuseCall("closed_scope_getgroup", func() error { _, err := s.GetGroup(tS2, "g"); return err })
+		abuseCall("closed_scope_getgroup_empty", func() error { _, err := s.GetGroup(tS2, "nogroup"); return err })
+		abuseCall("closed_scope_resolvegroup_empty", func() error { _, err := godi.ResolveGroup[*S0](s, "nogroup"); return err })
 		abuseCall("closed_scope_createscope", func() error { _, err := s.CreateScope(context.Background()); return err })
 		abuseCall("closed_scope_resolve", func() error { _, err := godi.Resolve[*S0](s); return err })
 	}
@@ -224,6 +226,7 @@ func doAbuse() {
 	abuseCall("closed_provider_get", func() error { _, err := p.Get(tS0); return err })
 	abuseCall("closed_provider_getkeyed", func() error { _, err := p.GetKeyed(tS1, "k"); return err })
 	abuseCall("closed_provider_getgroup", func() error { _, err := p.GetGroup(tS2, "g"); return err })
+	abuseCall("closed_provider_getgroup_empty", func() error { _, err := p.GetGroup(tS2, "nogroup"); return err })
 	abuseCall("closed_provider_createscope", func() error { _, err := p.CreateScope(context.Background()); return err })
 	abuseCall("closed_provider_mustresolve", func() error { godi.MustResolve[*S0](p); return nil })
 }
